@@ -45,6 +45,7 @@ type Event struct {
 	DepReads []*Event // write events: the read events of the same path whose value the written value depends on
 	HasRef bool // reference-valued read whose value was fixed to the candidate RefID on this path
 	RefID  int
+	Init   bool // initialising write emitted when a thread-local object is published (ownership transfer): not a racing access
 	Plain  bool // plain (non-atomic, non-sync) memory access: subject to the race analysis
 	Cap    int  // channel capacity (send / park / selwake events)
 }
@@ -894,8 +895,15 @@ func (ex *Exec) publishObj(o *Object) {
 	}
 	ex.conc.pubDone[o] = true
 	o.Shared = true
-	// contents become write events (initialisation happens-before the publishing store)
+	// contents become write events (initialisation happens-before the publishing store); they are
+	// marked as initialising writes: another thread can reach the object only through the reference
+	// that is published afterwards, so these writes cannot race with its accesses (a racy
+	// publication shows up as a race on the location holding the reference)
+	n0 := len(ex.conc.cur.Events)
 	ex.sharedStore(&Ptr{Obj: o}, o.V, false)
+	for _, e := range ex.conc.cur.Events[n0:] {
+		e.Init = true
+	}
 }
 
 func (ex *Exec) concMapAccess(m *MapV, write bool) {
@@ -2703,7 +2711,7 @@ func (ex *Exec) raceBySites(final *ThreadPath, finalPC []*Term) {
 	res := ex.sess.res
 	nThreads := len(c.threads) - 1
 	isW := func(e *Event) bool { return e.Kind == "w" || e.Kind == "rmw" || e.Kind == "mapw" }
-	isAcc := func(e *Event) bool { return isW(e) || e.Kind == "r" || e.Kind == "mapr" }
+	isAcc := func(e *Event) bool { return !e.Init && (isW(e) || e.Kind == "r" || e.Kind == "mapr") }
 	type site struct {
 		path *ThreadPath
 		ev   *Event
